@@ -520,6 +520,15 @@ var c09Helpers_ = []c09Helper{
 		_, err := muc.GetConfig(ctx, jid.MustParse("room@conf.example.net"), s)
 		return err
 	}},
+	{"muc.GetConfig+SetConfig", func(ctx context.Context, s *xmpp.Session) error {
+		// what a client does with the room's configuration form: it sends it back
+		room := jid.MustParse("room@conf.example.net")
+		f, err := muc.GetConfig(ctx, room, s)
+		if err != nil || f == nil {
+			return err
+		}
+		return muc.SetConfig(ctx, room, f, s)
+	}},
 	{"bin.Get", func(ctx context.Context, s *xmpp.Session) error {
 		_, err := bin.Get(ctx, s, c09To, "sha1+8f35fef110ffc5df08d579a50083ff9308fb6242@bob.xmpp.org")
 		return err
@@ -647,7 +656,8 @@ var c09Replies = []string{
 	`<blocklist xmlns='urn:xmpp:blocking'><item jid='a@b.example'/><item jid='c.example'/></blocklist>`,
 	`<pubsub xmlns='http://jabber.org/protocol/pubsub'><items node='urn:xmpp:bookmarks:1'><item id='room@conf.example.net'><conference xmlns='urn:xmpp:bookmarks:1' name='n' autojoin='true'><nick>me</nick><password>p</password><extensions><x xmlns='urn:e'/></extensions></conference></item><item id='r2@conf.example.net'><conference xmlns='urn:xmpp:bookmarks:1'/></item></items></pubsub>`,
 	`<fin xmlns='urn:xmpp:mam:2' complete='true' stable='false'><set xmlns='http://jabber.org/protocol/rsm'><first index='0'>a</first><last>b</last><count>2</count></set></fin>`,
-	`<query xmlns='http://jabber.org/protocol/muc#owner'><x xmlns='jabber:x:data' type='form'><title>t</title><instructions>i</instructions><field var='a' type='text-single' label='l'><desc>d</desc><required/><value>v</value></field><field var='b' type='boolean'><value>1</value></field><field var='c' type='jid-multi'><value>a@b.example</value></field></x></query>`,
+	`<query xmlns='http://jabber.org/protocol/muc#owner'><x xmlns='jabber:x:data' type='form'><title>t</title><instructions>i</instructions><field var='a' type='text-single' label='l'><desc>d</desc><required/><value>v</value></field><field var='b' type='boolean'><value>1</value></field><field var='c' type='jid-multi'><value>a@b.example</value></field><field var='d' type='text-multi'><value>line one</value><value/><value>ends with a newline
+</value></field><field var='e' type='text-multi'><value/></field><field var='f' type='list-multi'><value/><option label='o'><value>x</value></option></field></x></query>`,
 	`<data xmlns='urn:xmpp:bob' cid='sha1+8f35fef110ffc5df08d579a50083ff9308fb6242@bob.xmpp.org' type='image/png' max-age='86400'>aGVsbG8=</data>`,
 	`<command xmlns='http://jabber.org/protocol/commands' sessionid='s1' node='cfg' status='executing'><actions execute='next'><prev/><next/><complete/></actions><note type='info'>n</note><x xmlns='jabber:x:data' type='form'><field var='a' type='text-multi'><value>l1</value><value>l2</value></field></x></command>`,
 	`<command xmlns='http://jabber.org/protocol/commands' sessionid='s1' node='cfg' status='completed'><note type='warn'>done</note></command>`,
